@@ -1165,7 +1165,8 @@ _R1 = "prod1 == 0 and not done1 and nq1 <= 1"      # second stream in a reduced 
 _R0 = "prod0 == 0 and not done0 and nq0 <= 1"
 
 
-_QUICK_TURN = [("ns == 1",), ("ns == 2", _R1, "not cb", "nq0 == 0"), ("ns == 2", _R1, "not cb", "nq0 == 1"),
+_QUICK_TURN = [("ns == 1",), ("ns == 2", _R1, "not cb", "nq0 == 0"),
+               ("ns == 2", _R1, "not cb", "nq0 == 1", "done0"), ("ns == 2", _R1, "not cb", "nq0 == 1", "not done0"),
                ("ns == 2", _R1, "not cb", "nq0 == 2", "done0"), ("ns == 2", _R1, "not cb", "nq0 == 2", "not done0"),
                ("ns == 2", _R1, "cb")]
 _QUICK_EVENT = [("ns == 1", "loop == 0"), ("ns == 1", "loop == 1", "ev == 0"), ("ns == 1", "loop == 1", "ev == 1"),
@@ -1212,10 +1213,10 @@ def _hist_shards(tier):
 
 
 HARNESSES = [
-    H(step_turn, shards=_turn_shards, timeout={"quick": 90, "thorough": 900}, labels=("end", "ended", "sent")),
-    H(step_event, shards=_event_shards, timeout={"quick": 90, "thorough": 900}),
-    H(step_app, shards=_app_shards, timeout={"quick": 90, "thorough": 900}),
-    H(history, shards=_hist_shards, timeout={"quick": 90, "thorough": 900}, labels=("end", "ops", "live")),
+    H(step_turn, shards=_turn_shards, timeout={"quick": 120, "thorough": 900}, labels=("end", "ended", "sent")),
+    H(step_event, shards=_event_shards, timeout={"quick": 120, "thorough": 900}),
+    H(step_app, shards=_app_shards, timeout={"quick": 120, "thorough": 900}),
+    H(history, shards=_hist_shards, timeout={"quick": 120, "thorough": 900}, labels=("end", "ops", "live")),
 ]
 
 
